@@ -10,6 +10,9 @@
           27 = a reporter's progress events / value / maximum differ from the history reading
           28 = with a raising callback: the calls made are not the expected calls up to and including the
                first raising one, or the exception did not propagate out of emit (C19_dispatch_raising)
+          (stage 3) 26 is also judged on the lines printed by the set_complete_message callback; 27 also
+               requires the keyword arguments of increment / set_complete on both events; is_complete(),
+               the `progress` quotient and the printed progress lines are compared with the model (code 1)
           3  = input outside the stated regime (a silent() block left that was never entered): harness bug
    Concrete instance used by the harness: the emit arguments are (positional ints, sorted keyword
    (key, int) pairs); every harness callback returns the record of what it received. *)
@@ -27,6 +30,17 @@ Definition hout := out payload hcall.
 (* one operation as observed: its outcome, or an unexpected exception *)
 Inductive oobs := Ob (o : hout) | ObExc.
 Record pobs := mkpobs { po_events : list pev; po_value : Z; po_max : Z }.
+(* stage 3: keyword dictionaries are sorted (key, value) lists; what one reporter operation shows:
+   the events with their keyword arguments, value, value_max, is_complete(), the `progress`
+   property as the exact ratio of the float returned (None: ZeroDivisionError), the lines printed
+   by the callbacks of set_progress_message("P{k0}") / set_complete_message("C{k0}") *)
+Definition kwd := list (Z * Z).
+Definition look0 (kw : kwd) : option Z :=
+  match find (fun p => fst p =? 0) kw with Some p => Some (snd p) | None => None end.
+Definition hpopk := popk kwd.
+Record pobsx := mkpobsx { px_events : list (pev * kwd); px_value : Z; px_max : Z; px_isc : bool;
+                          px_progress : option (Z * Z); px_prints : list ptok }.
+Definition pobs_of (x : pobsx) : pobs := mkpobs (map fst (px_events x)) (px_value x) (px_max x).
 
 (* stage 3: histories in which the callbacks whose id is in [raisers] raise *)
 Definition houtx := outx payload hcall.
@@ -37,12 +51,12 @@ Definition behx0 (raisers : list Z) (f : func) (s : Z) (a : payload) : option hc
 Inductive input :=
 | InHist (h : list hop)
 | InHistX (h : list hop) (raisers : list Z)
-| InProg (h : list pop).
+| InProg (h : list hpopk).
 
 Inductive observed :=
 | ObsHist (runs : list (list oobs))      (* one trace per implementation-side configuration *)
 | ObsHistX (runs : list (list xobs))
-| ObsProg (l : list pobs)
+| ObsProg (l : list pobsx)
 | ObsCrash.
 
 Record case := { cid : Z; cin : input; cobs : observed }.
@@ -195,6 +209,47 @@ Fixpoint prog_model_eq (s : pstate) (h : list pop) (obs : list pobs) : bool :=
   | _, _ => false
   end.
 
+(* ---- stage 3: accessors, keyword arguments, message callbacks ---- *)
+Definition kw_eqb (a b : kwd) : bool := list_eqb zz_eqb a b.
+Definition pevk_eqb (a b : pev * kwd) : bool := pev_eqb (fst a) (fst b) && kw_eqb (snd a) (snd b).
+Definition ptok_eqb (a b : ptok) : bool :=
+  match a, b with
+  | TokProgress k n, TokProgress k' n' => optZ_eqb k k' && Bool.eqb n n'
+  | TokComplete k, TokComplete k' => optZ_eqb k k'
+  | _, _ => false
+  end.
+Definition is_tokc (t : ptok) : bool := match t with TokComplete _ => true | _ => false end.
+(* value / float(value_max): correctly rounded quotient of two small integers, so the float num/den
+   returned satisfies |num/den - v/m| <= 2^-53 |v/m|; ZeroDivisionError iff the maximum is 0 *)
+Definition progress_ok (v m : Z) (o : option (Z * Z)) : bool :=
+  match o with
+  | None => m =? 0
+  | Some (num, den) => negb (m =? 0) && (0 <? den) &&
+                       (Z.abs (num * m - v * den) * 2 ^ 53 <=? Z.abs (v * den))
+  end.
+
+Fixpoint prog_model_eq_x (s : pstate) (h : list hpopk) (obs : list pobsx) : bool :=
+  match h, obs with
+  | o :: r, x :: obs' =>
+      let s' := fst (pstep_k [] s o) in
+      let evs := snd (pstep_k [] s o) in
+      list_eqb pevk_eqb evs (px_events x) &&
+      Bool.eqb (px_isc x) (is_complete s') &&
+      progress_ok (p_value s') (p_max s') (px_progress x) &&
+      list_eqb ptok_eqb (flat_map (printed look0) evs) (px_prints x) &&
+      prog_model_eq_x s' r obs'
+  | [], [] => true
+  | _, _ => false
+  end.
+
+Fixpoint kwargs_ok (h : list hpopk) (obs : list pobsx) : bool :=
+  match h, obs with
+  | o :: r, x :: obs' =>
+      forallb (fun e => kw_eqb (snd e) (kw_of [] o)) (px_events x) && kwargs_ok r obs'
+  | [], [] => true
+  | _, _ => false
+  end.
+
 Definition check (c : case) : list Z :=
   match cin c, cobs c with
   | InHist h, o =>
@@ -217,10 +272,13 @@ Definition check (c : case) : list Z :=
       end
   | InProg h, o =>
       match o with
-      | ObsProg l =>
-          flag 1 (prog_model_eq pinit h l) ++
-          flag 26 (progress_spec_b h (map (fun x => existsb is_complete_ev (po_events x)) l)) ++
-          flag 27 (prog_events_ok [] h l)
+      | ObsProg lx =>
+          let hb := map pk_op h in
+          let l := map pobs_of lx in
+          flag 1 (prog_model_eq pinit hb l && prog_model_eq_x pinit h lx) ++
+          flag 26 (progress_spec_b hb (map (fun x => existsb is_complete_ev (po_events x)) l) &&
+                   progress_spec_b hb (map (fun x => existsb is_tokc (px_prints x)) lx)) ++
+          flag 27 (prog_events_ok [] hb l && kwargs_ok h lx)
       | _ => [1; 26]
       end
   end.
